@@ -101,6 +101,13 @@ func Lattice[E any, P Ptr[E]](f *Field[E, P], rng *gen.Rng, nRandom int, big_ bo
 	for i := 0; i < f.Limbs; i++ {
 		addRaw(sub(q, new(big.Int).Lsh(one, uint(i*w))), "mont-raw-q-2^iw")
 	}
+	// raw (Montgomery) representations at the thresholds of doubling and halving: 2*raw crosses q or 2^Bits just there
+	top := new(big.Int).Lsh(one, uint(f.Bits-1))
+	for _, raw := range []*big.Int{h, new(big.Int).Add(h, one), sub(h, one), sub(top, one), top, new(big.Int).Add(top, one),
+		sub(q, one), sub(q, big.NewInt(2)), new(big.Int).Div(q, big.NewInt(3)), new(big.Int).Add(new(big.Int).Div(q, big.NewInt(3)), one),
+		sub(top, new(big.Int).Lsh(one, uint(f.Bits/2-1))), new(big.Int).Add(sub(top, new(big.Int).Lsh(one, uint(f.Bits/2-1))), one)} {
+		addRaw(raw, "mont-raw-threshold")
+	}
 	for i := 0; i < nRandom; i++ {
 		add(rng.BigBelow(q), "random")
 	}
